@@ -196,7 +196,7 @@ theorem Rel₂.keys {κ α β : Type} {R : κ × α → κ × β → Prop} {L : 
   | cons hr _ ih => simp only [List.map_cons, ih, hk _ _ hr]
 
 /-- entity by entity, the populations of a clone are the clones of the original's populations -/
-theorem SimCloned.popLookup {s c : Id} {tr : Bool} {h h' : Heap} (sc : SimCloned s c tr h h')
+theorem SimCloned.popLookup {s c : Id} {tr dbg : Bool} {h h' : Heap} (sc : SimCloned s c tr dbg h h')
     (hl : ∀ so, h.get? s = some (.sim so) → alGet so.pops 0 = some so.persons) :
     ∃ so so', h.get? s = some (.sim so) ∧ h'.get? c = some (.sim so') ∧ ∀ k,
       (alGet so.pops k = none ∧ alGet so'.pops k = none)
@@ -335,8 +335,8 @@ theorem MemoryBacked.ofB {h : Heap} {s : Id} (hb : memoryBackedB h s = true) : M
     | some d => rw [hd] at h2; cases h2
 
 /-- the two regions after `clone()`: distinct, and both closed when the original is memory-backed -/
-theorem clone_regions {h : Heap} {s : Id} {tr : Bool} {h' : Heap} {c : Id} (hwf : WellFormed h s)
-    (hmem : MemoryBacked h s) (hc : cloneSim s tr h = (.ok c, h')) :
+theorem clone_regions {h : Heap} {s : Id} {tr dbg : Bool} {h' : Heap} {c : Id} (hwf : WellFormed h s)
+    (hmem : MemoryBacked h s) (hc : cloneSim s tr dbg h = (.ok c, h')) :
     s.reg ≠ c.reg ∧ Closed s.reg h' ∧ Closed c.reg h' := by
   have sc := cloneSim_spec hwf.closed hc
   have hne : s.reg ≠ h.length := Nat.ne_of_lt sc.lt
@@ -362,7 +362,7 @@ def exC : Id := ⟨1, 0⟩
 /-- the original when it is cloned -/
 def exH : Heap := runSide exSys 40 exS [.setInput 0 exM1 [1, 2, 3], .calculate 1 exM1] (build exSpec []).2
 /-- the heap after `clone()` -/
-def exH' : Heap := (cloneSim exS false exH).2
+def exH' : Heap := (cloneSim exS false false exH).2
 def exOps : List (Side × Op) :=
   [(.clone, .calculate 2 exM1), (.clone, .calculate 4 exM1), (.orig, .setInput 0 exM1 [4, 4, 4]),
    (.orig, .calculate 4 exM1), (.orig, .calculate 5 exM1), (.clone, .deleteArrays 0 none),
@@ -371,6 +371,6 @@ def exOps : List (Side × Op) :=
 /-- the same simulation with `MemoryConfig(max_memory_occupation=0)`: its input is stored on disk -/
 def exDiskSys : Sys := [⟨0, .month, 0, none⟩]
 def exDiskH : Heap := runSide exDiskSys 40 exS [.setInput 0 exM1 [1]] (build ⟨1, [], some ⟨[]⟩⟩ []).2
-def exDiskH' : Heap := (cloneSim exS false exDiskH).2
+def exDiskH' : Heap := (cloneSim exS false false exDiskH).2
 
 end OFCore.Heap
